@@ -5,7 +5,7 @@ import NfcVerif.Model.IsoDepC08
 * `xchgW_asFound`, `blockLoop_asFound`, `recvChain_asFound`, `exchange_asFound`: with all switches off
   the functions of `Model/IsoDepC08.lean` are those of `Model/IsoDep.lean` (the model C12 works with).
 * with all switches on: `xchgW_spec` (at most `1 + max_wtxm_sum` frames, fuel `max_wtxm_sum + 1` is never
-  used up), `blockLoop_spec` (at most `n + 1` rounds), `sendChunks_spec`, `recvChain_spec` (at most 65539
+  used up), `blockLoop_spec` (at most `n + 2` rounds), `sendChunks_spec`, `recvChain_spec` (at most 65539
   rounds), `exchange_spec`: whatever the card answers, `exchange` returns a response or a
   `Type4TagCommandError`, uses up no fuel and sends at most `exchFrames` frames.
 -/
@@ -225,17 +225,17 @@ structure Cfg.Repaired (c : Cfg) (nNak nAck : Nat) : Prop where
   ack : c.fx.ack = true
   chain : c.fx.chain = true
   fW : c.lim < c.F
-  fN : nNak + 1 ≤ c.F
-  fA : nAck + 1 ≤ c.F
+  fN : nNak + 2 ≤ c.F
+  fA : nAck + 2 ≤ c.F
   fC : 65540 ≤ c.F
 
-/-- one retry loop with the retransmissions counted: at most `n + 2 - i` rounds of at most `lim + 1` frames -/
+/-- one retry loop with the retransmissions counted: at most `n + 3 - i` rounds of at most `lim + 1` frames -/
 theorem blockLoop_spec {σ} (P : Peer σ) (c : Cfg) (hw : c.fx.wtx = true) (ha : c.fx.ack = true) (hF : c.lim < c.F)
     (n : Nat) (resend : Option Nat) (req rty : Bytes) :
-    ∀ (f i : Nat) (out : Bytes) (w : World σ), i ≤ n + 1 → n + 2 ≤ i + f →
+    ∀ (f i : Nat) (out : Bytes) (w : World σ), i ≤ n + 2 → n + 3 ≤ i + f →
       BlockRes (blockLoop P c n resend req rty f i out w).2 ∧
       frames w ≤ frames (blockLoop P c n resend req rty f i out w).1 ∧
-      frames (blockLoop P c n resend req rty f i out w).1 ≤ frames w + (n + 2 - i) * (c.lim + 1) := by
+      frames (blockLoop P c n resend req rty f i out w).1 ≤ frames w + (n + 3 - i) * (c.lim + 1) := by
   intro f
   induction f with
   | zero => intro i out w h1 h2; omega
@@ -248,27 +248,27 @@ theorem blockLoop_spec {σ} (P : Peer σ) (c : Cfg) (hw : c.fx.wtx = true) (ha :
     rw [hq] at hx
     simp only at hx
     generalize hK : c.lim + 1 = K at *
-    have hk1 : K ≤ (n + 2 - i) * K := Nat.le_mul_of_pos_left K (by omega)
-    have hstep : i ≤ n → (n + 2 - i) * K = (n + 2 - (i + 1)) * K + K := by
+    have hk1 : K ≤ (n + 3 - i) * K := Nat.le_mul_of_pos_left K (by omega)
+    have hstep : i ≤ n + 1 → (n + 3 - i) * K = (n + 3 - (i + 1)) * K + K := by
       intro h
-      rw [show n + 2 - i = (n + 2 - (i + 1)) + 1 by omega, Nat.add_mul, Nat.one_mul]
-    have hrec : i ≤ n → ∀ (o : Bytes),
+      rw [show n + 3 - i = (n + 3 - (i + 1)) + 1 by omega, Nat.add_mul, Nat.one_mul]
+    have hrec : i ≤ n + 1 → ∀ (o : Bytes),
         BlockRes (blockLoop P c n resend req rty f (i + 1) o w').2 ∧
         frames w ≤ frames (blockLoop P c n resend req rty f (i + 1) o w').1 ∧
-        frames (blockLoop P c n resend req rty f (i + 1) o w').1 ≤ frames w + (n + 2 - i) * K := by
+        frames (blockLoop P c n resend req rty f (i + 1) o w').1 ≤ frames w + (n + 3 - i) * K := by
       intro h o
       have := ih (i + 1) o w' (by omega) (by omega)
       have hs := hstep h
       exact ⟨this.1, by omega, by omega⟩
     have hend : ∀ e, BlockRes (Except.error (Exc.tagCmd e) : Py Bytes) ∧ frames w ≤ frames w' ∧
-        frames w' ≤ frames w + (n + 2 - i) * K := fun e => ⟨⟨e, rfl⟩, by omega, by omega⟩
+        frames w' ≤ frames w + (n + 3 - i) * K := fun e => ⟨⟨e, rfl⟩, by omega, by omega⟩
     cases r with
     | data d =>
       cases d with
       | nil =>
         simp only
         split
-        · rename_i h; exact hrec h _
+        · rename_i h; exact hrec (by omega) _
         · exact hend _
       | cons a t =>
         simp only
@@ -281,12 +281,12 @@ theorem blockLoop_spec {σ} (P : Peer σ) (c : Cfg) (hw : c.fx.wtx = true) (ha :
     | timeout =>
       simp only
       split
-      · rename_i h; exact hrec h _
+      · rename_i h; exact hrec (by omega) _
       · exact hend _
     | transmission =>
       simp only
       split
-      · rename_i h; exact hrec h _
+      · rename_i h; exact hrec (by omega) _
       · exact hend _
     | protocol => exact hend _
     | waited => exact hend _
@@ -294,7 +294,7 @@ theorem blockLoop_spec {σ} (P : Peer σ) (c : Cfg) (hw : c.fx.wtx = true) (ha :
 
 /-- the command phase: one retry loop per command block -/
 theorem sendChunks_spec {σ} (P : Peer σ) (c : Cfg) (hw : c.fx.wtx = true) (ha : c.fx.ack = true) (hF : c.lim < c.F)
-    (nNak : Nat) (hN : nNak + 1 ≤ c.F) :
+    (nNak : Nat) (hN : nNak + 2 ≤ c.F) :
     ∀ (cs : List Bytes) (pni : Nat) (w : World σ), cs ≠ [] →
       BlockRes (sendChunks P c nNak cs pni w).2.2 ∧
       frames w ≤ frames (sendChunks P c nNak cs pni w).1 ∧
@@ -309,12 +309,12 @@ theorem sendChunks_spec {σ} (P : Peer σ) (c : Cfg) (hw : c.fx.wtx = true) (ha 
     generalize hib : (((if (!rest.isEmpty) = true then 0x12 else 0x02) ||| pni) :: ch) = iblk
     have hb := blockLoop_spec P c hw ha hF nNak (some (0xA2 ||| ((pni + 1) % 2))) iblk [0xB2 ||| pni] c.F 1 iblk w
       (by omega) (by omega)
-    rw [show nNak + 2 - 1 = nNak + 1 by omega] at hb
+    rw [show nNak + 3 - 1 = nNak + 2 by omega] at hb
     rcases hq : blockLoop P c nNak (some (0xA2 ||| ((pni + 1) % 2))) iblk [0xB2 ||| pni] c.F 1 iblk w with ⟨w', r⟩
     rw [hq] at hb
     simp only at hb
     unfold loopFrames
-    generalize hQ : (nNak + 1) * (c.lim + 1) = Q at *
+    generalize hQ : (nNak + 2) * (c.lim + 1) = Q at *
     have hlen : (ch :: rest).length * Q = rest.length * Q + Q := by
       rw [List.length_cons, Nat.add_mul, Nat.one_mul]
     have hend : ∀ e, BlockRes (Except.error (Exc.tagCmd e) : Py Bytes) ∧ frames w ≤ frames w' ∧
@@ -347,7 +347,7 @@ theorem sendChunks_spec {σ} (P : Peer σ) (c : Cfg) (hw : c.fx.wtx = true) (ha 
 /-- the response phase: every chained block must bring at least one octet and the response may not exceed
 65538 octets, so there are at most 65539 rounds -/
 theorem recvChain_spec {σ} (P : Peer σ) (c : Cfg) (hw : c.fx.wtx = true) (ha : c.fx.ack = true) (hch : c.fx.chain = true)
-    (hF : c.lim < c.F) (nAck : Nat) (hA : nAck + 1 ≤ c.F) :
+    (hF : c.lim < c.F) (nAck : Nat) (hA : nAck + 2 ≤ c.F) :
     ∀ (f pni : Nat) (data resp : Bytes) (w : World σ), data ≠ [] → data.length - 1 ≤ resp.length →
       65539 - (resp.length - (data.length - 1)) + 1 ≤ f →
       CmdRes (recvChain P c nAck f pni data resp w).2.2 ∧
@@ -379,12 +379,12 @@ theorem recvChain_spec {σ} (P : Peer σ) (c : Cfg) (hw : c.fx.wtx = true) (ha :
             apply Nat.le_of_not_gt; intro h; exact hpass (Or.inr h)
           have hb := blockLoop_spec P c hw ha hF nAck none [0xA2 ||| pni] [0xA2 ||| pni] c.F 1 [0xA2 ||| pni] w
             (by omega) (by omega)
-          rw [show nAck + 2 - 1 = nAck + 1 by omega] at hb
+          rw [show nAck + 3 - 1 = nAck + 2 by omega] at hb
           rcases hq : blockLoop P c nAck none [0xA2 ||| pni] [0xA2 ||| pni] c.F 1 [0xA2 ||| pni] w with ⟨w', r⟩
           rw [hq] at hb
           simp only at hb
           unfold loopFrames
-          generalize hQ : (nAck + 1) * (c.lim + 1) = Q at *
+          generalize hQ : (nAck + 2) * (c.lim + 1) = Q at *
           generalize hM : 65539 - (resp.length - inf.length) = M at *
           have hM2 : 65539 - resp.length + 1 ≤ M := by omega
           have hmul : (65539 - resp.length) * Q + Q ≤ M * Q := by
